@@ -11,6 +11,7 @@ import (
 	"strings"
 	"verif/clih"
 	"verif/engine/enum"
+	"verif/mighelp"
 
 	"ariga.io/atlas/sql/migrate"
 	"ariga.io/atlas/sql/mysql"
@@ -163,7 +164,7 @@ func readBack(d *dialectT, format string, files []migrate.File) ([]string, error
 }
 
 func Eval(c Case) (problems []string, skipped string, cmds []string) {
-	return evalWith(c, false)
+	return evalWith(c, "")
 }
 
 // importCLI writes the formatted files into a directory, runs the real `atlas migrate import` on it and
@@ -203,7 +204,8 @@ func importCLI(format string, files []migrate.File) ([]migrate.File, string) {
 	return out, ""
 }
 
-func evalWith(c Case, viaImport bool) (problems []string, skipped string, cmds []string) {
+func evalWith(c Case, via string) (problems []string, skipped string, cmds []string) {
+	viaImport := via == "import"
 	bad := func(f string, a ...any) { problems = append(problems, fmt.Sprintf(f, a...)) }
 	d := dialects[c.Dialect]
 	defer func() {
@@ -277,8 +279,15 @@ func evalWith(c Case, viaImport bool) (problems []string, skipped string, cmds [
 		}
 		files, readFormat = imported, "atlas"
 	}
-	got, err := readBack(d, readFormat, files)
-	if err != nil {
+	var got []string
+	if via == "exec" {
+		// what a first `migrate apply` runs: the files go into a directory of the format's own type
+		// and the real Executor executes them on a driver that records every statement.
+		if got, err = executed(d, c.Format, files); err != nil {
+			bad("executing the directory fails: %v", err)
+			return
+		}
+	} else if got, err = readBack(d, readFormat, files); err != nil {
 		bad("reading the file back fails: %v", err)
 		return
 	}
@@ -388,7 +397,7 @@ func ownQuote(c Case) bool {
 }
 
 func Run(r *report.Run) {
-	r.Rule = "plans of the real MySQL/PostgreSQL/SQLite planners over a two-table schema in which one slot (thorough: two slots) out of 11 (table/column/index/check/foreign-key name, table/column/index comment, string default, enum value, check string literal) holds each of 20 adversarial strings (quotes, semicolon, comment markers, backslash, newline, dollar tags, BEGIN/END, DELIMITER and atlas:delimiter lines) x change kind {create, drop, alter, alter back} x 6 formatters (the atlas one also through Planner.WriteCheckpoint) x indent {none, two spaces} x plan delimiter (atlas format: default, \\nGO, //, \\n-- end); the file is read back with the matching reader and the dialect's scanner and must yield exactly Plan.Changes[].Cmd; every change comment carries a marker that must not reach a statement; import slice: the directory written by each third-party formatter is imported by the real `atlas migrate import` and the resulting atlas file, read with the dialect's scanner, must again yield exactly the planned statements; hand-written third-party files (3 statements x 4 terminator spellings incl. trailing blanks / tab / CR LF x 3 file endings incl. an unterminated last statement x 5 formats) must be read as exactly their 3 statements by the format's reader and by `migrate import`; non-trivial = case with >=1 adversarial slot; distinct = (dialect, slots, kind, format, indent, delimiter)"
+	r.Rule = "plans of the real MySQL/PostgreSQL/SQLite planners over a two-table schema in which one slot (thorough: two slots) out of 11 (table/column/index/check/foreign-key name, table/column/index comment, string default, enum value, check string literal) holds each of 20 adversarial strings (quotes, semicolon, comment markers, backslash, newline, dollar tags, BEGIN/END, DELIMITER and atlas:delimiter lines) x change kind {create, drop, alter, alter back} x 6 formatters (the atlas one also through Planner.WriteCheckpoint) x indent {none, two spaces} x plan delimiter (atlas format: default, \\nGO, //, \\n-- end); the file is read back with the matching reader and the dialect's scanner and must yield exactly Plan.Changes[].Cmd; every change comment carries a marker that must not reach a statement; import slice: the directory written by each third-party formatter is imported by the real `atlas migrate import` and the resulting atlas file, read with the dialect's scanner, must again yield exactly the planned statements; execution slice: for every dialect x format x change kind the formatted files are written into a local directory opened as the format's own directory type and the real Executor (empty history, statements recorded by the driver) must run exactly the planned statements; hand-written third-party files (3 statements x 4 terminator spellings incl. trailing blanks / tab / CR LF x 3 file endings incl. an unterminated last statement x 5 formats) must be read as exactly their 3 statements by the format's reader and by `migrate import`; non-trivial = case with >=1 adversarial slot; distinct = (dialect, slots, kind, format, indent, delimiter)"
 	r.Assumptions = []string{
 		"statement text is compared after trimming one trailing ';'",
 		"the import slice uses create plans with at most one adversarial slot (quick: 4 slots; thorough: all)",
@@ -428,7 +437,7 @@ func Run(r *report.Run) {
 	}
 	out := make([]ires, len(ics))
 	enum.Parallel(len(ics), func(i, _ int) {
-		p, s, _ := evalWith(ics[i], true)
+		p, s, _ := evalWith(ics[i], "import")
 		out[i] = ires{p, s}
 	})
 	for i, c := range ics {
@@ -439,7 +448,93 @@ func Run(r *report.Run) {
 		r.Violate(classifyImport(c, out[i].problems), fmt.Sprintf("import %s %v %s %s: %s", c.Dialect, c.Values, c.Kind, c.Format, strings.Join(out[i].problems, " | ")), map[string]any{"import": c})
 	}
 	r.Set("import_cases", len(ics))
+	ecs := execCases()
+	for _, c := range ecs {
+		problems, skip, _ := evalWith(c, "exec")
+		r.Case(fmt.Sprintf("exec|%v", c), skip == "")
+		if skip == "" && len(problems) > 0 {
+			r.Violate("", fmt.Sprintf("executed %s %s %s: %s", c.Dialect, c.Kind, c.Format, strings.Join(problems, " | ")), map[string]any{"exec": c})
+		}
+	}
+	r.Set("exec_cases", len(ecs))
 	r.Set("handwritten_cases", runHandWritten(r))
+}
+
+// recDriver records the statements the executor runs; statement splitting is the dialect driver's.
+type recDriver struct {
+	*mighelp.Driver
+	scan func(string) ([]*migrate.Stmt, error)
+}
+
+func (d recDriver) ScanStmts(in string) ([]*migrate.Stmt, error) { return d.scan(in) }
+
+// executed writes the formatted files into a local directory opened as the format's directory type
+// and returns the statements Executor.ExecuteN runs on an empty revision history.
+func executed(d *dialectT, format string, files []migrate.File) (stmts []string, err error) {
+	path, err := os.MkdirTemp(clih.ScratchRoot(), "c07exec")
+	if err != nil {
+		return nil, err
+	}
+	defer os.RemoveAll(path)
+	var dir migrate.Dir
+	switch format {
+	case "golang-migrate":
+		dir, err = sqltool.NewGolangMigrateDir(path)
+	case "goose":
+		dir, err = sqltool.NewGooseDir(path)
+	case "flyway":
+		dir, err = sqltool.NewFlywayDir(path)
+	case "liquibase":
+		dir, err = sqltool.NewLiquibaseDir(path)
+	case "dbmate":
+		dir, err = sqltool.NewDBMateDir(path)
+	default:
+		dir, err = migrate.NewLocalDir(path)
+	}
+	if err != nil {
+		return nil, err
+	}
+	for _, f := range files {
+		if err := dir.WriteFile(f.Name(), f.Bytes()); err != nil {
+			return nil, err
+		}
+	}
+	sum, err := dir.Checksum()
+	if err != nil {
+		return nil, err
+	}
+	if err := migrate.WriteSumFile(dir, sum); err != nil {
+		return nil, err
+	}
+	scanner, ok := d.driver.(interface {
+		ScanStmts(string) ([]*migrate.Stmt, error)
+	})
+	if !ok {
+		return nil, fmt.Errorf("driver %T has no scanner", d.driver)
+	}
+	drv := recDriver{&mighelp.Driver{OnExec: func(q string) error { stmts = append(stmts, q); return nil }}, scanner.ScanStmts}
+	ex, err := migrate.NewExecutor(drv, dir, mighelp.NewStore())
+	if err != nil {
+		return nil, err
+	}
+	if err := ex.ExecuteN(context.Background(), 0); err != nil {
+		return nil, err
+	}
+	return stmts, nil
+}
+
+// execCases: plans without adversarial strings for every dialect x format x kind; what matters here is
+// the path the files take (directory type -> Executor.Pending on an empty history -> file reader).
+func execCases() []Case {
+	var cs []Case
+	for _, d := range []string{"mysql", "postgres", "sqlite"} {
+		for _, f := range formats {
+			for _, k := range []string{"create", "drop", "alter", "alter_back"} {
+				cs = append(cs, Case{Dialect: d, Kind: k, Format: f.name})
+			}
+		}
+	}
+	return cs
 }
 
 // importCases: create-plans with at most one adversarial slot, written by each third-party formatter.
@@ -511,6 +606,31 @@ func Replay(r *report.Run, raw json.RawMessage) {
 	var v struct{ Case Case }
 	if err := json.Unmarshal(raw, &v); err != nil {
 		r.Violate("", "bad replay file: "+err.Error(), nil)
+		return
+	}
+	var wv struct {
+		Case struct {
+			Import *Case `json:"import"`
+			Exec   *Case `json:"exec"`
+		}
+	}
+	if json.Unmarshal(raw, &wv) == nil && (wv.Case.Import != nil || wv.Case.Exec != nil) {
+		defer clih.Cleanup()
+		c, via := wv.Case.Import, "import"
+		if c == nil {
+			c, via = wv.Case.Exec, "exec"
+		}
+		problems, skip, _ := evalWith(*c, via)
+		fmt.Printf("  %s case %+v skipped=%q\n", via, *c, skip)
+		r.Case("a", true)
+		r.Case("b", true)
+		if len(problems) > 0 {
+			key := ""
+			if via == "import" {
+				key = classifyImport(*c, problems)
+			}
+			r.Violate(key, strings.Join(problems, " | "), wv.Case)
+		}
 		return
 	}
 	problems, skip, cmds := Eval(v.Case)
